@@ -407,13 +407,12 @@ struct Observed {
 fn observe(e: &Value, sigma: &[u8], len: usize, given: &[Vec<u8>], seed: u64) -> Option<Observed> {
     let nfa = build(e);
     let dot = format!("{:?}", nfa);
+    // an unparsable graph or ids that are not 0..size-1 in order is a disagreement with the
+    // model (agree = false), not a crash: the language may still be right
     let (stop, states) = match parse_dot(&dot) {
-        Some(x) => x,
-        None => (0, vec![]),
+        Some(x) if x.1.len() == nfa.size() => x,
+        _ => (0, vec![]),
     };
-    if states.len() != nfa.size() {
-        return None;
-    }
     let dfa = nfa.compile();
     let (cd, dfa_size) = coq_dfa(&dfa)?;
     let mut w = Walk { dfa: &dfa, sigma: sigma.to_vec(), consistent: true, nodes: 0, live: 0, accepted: vec![], rejected: 0 };
@@ -448,9 +447,11 @@ fn choose_sigma(e: &Value, seed: u64) -> Vec<u8> {
     let mut sigma: Vec<u8> = if all.len() <= 4 {
         all.clone()
     } else {
-        // literals first (they are the fixed points of a grammar), then a few predicate bytes
+        // the extreme bytes of the alphabet, then a few others
         let mut rng = Rng::new(seed ^ 0x5151);
         let mut pick = BTreeSet::new();
+        pick.insert(all[0]);
+        pick.insert(all[all.len() - 1]);
         while pick.len() < 4 {
             pick.insert(*rng.pick(&all));
         }
@@ -547,7 +548,14 @@ fn rand_leaf(rng: &mut Rng, al: &[u8]) -> Value {
         0 => mk("empty"),
         1 => mk("nothing"),
         2 | 3 | 4 => pred(&rand_set(rng, al)),
-        5 => lit(&[]),
+        5 => {
+            if rng.chance(1, 2) {
+                lit(&[])
+            } else {
+                // a literal with multi-byte characters (From<&str> walks bytes, not chars)
+                lit(rng.pick(&["\u{e9}", "a\u{e9}", "\u{2192}", "\u{7f}\u{80}"]).as_bytes())
+            }
+        }
         6 | 7 => {
             let n = 2 + rng.below(2) as usize;
             let bs: Vec<u8> = (0..n).map(|_| *rng.pick(al)).collect();
@@ -656,6 +664,20 @@ pub fn generate(rng: &mut Rng, n: usize, tier: &str) -> Vec<Value> {
                 v.push(json!({"e": un("opt", nary("seq", vec![e.clone(), un("many", lit(b"b"))]))}));
             }
         }
+    }
+    // tags: overriding, tags on operands edited in place, nested tagged tables
+    for e in [
+        tag(1, tag(2, lit(b"ab"))),
+        tag(1, un("plus", tag(2, lit(b"a")))),
+        nary("choice", vec![tag(1, un("plus", lit(b"a"))), tag(2, un("opt", lit(b"a"))), tag(3, un("many", lit(b"ab")))]),
+        nary("choice", vec![tag(1, lit(b"abc")), tag(2, lit(b"abd")), tag(1, lit(b"ab")), nary("choice", vec![tag(4, lit(b"a")), tag(5, pred(b"ab"))])]),
+        nary("seq", vec![nary("choice", vec![tag(1, lit(b"a")), tag(2, lit(b"b"))]), lit(b"c")]),
+        nary("choice", vec![tag(7, nary("seq", vec![lit(b"a"), un("opt", nary("seq", vec![un("plus", lit(b"b")), lit(b"a")]))])), tag(8, un("many", pred(b"ab")))]),
+        pred(&(0..=255u8).collect::<Vec<u8>>()),
+        pred(&[0, 255]),
+        un("many", pred(&(0..=255u8).filter(|b| *b != 0x1b).collect::<Vec<u8>>())),
+    ] {
+        v.push(json!({ "e": e }));
     }
     let fixed = v.len();
     let als: [&[u8]; 4] = [b"ab", b"abc", b"a", b"ab;0"];
